@@ -35,6 +35,7 @@ Proof.
   intros (Hr & Hi & Hce & Hm) Hp Hev. constructor; auto.
   - intros q m Hq _ _. rewrite Hm. exact Hq.
   - intros q m Hq Hv. exists m. rewrite Hm. split; [exact Hq|]. split; [exact Hv | lia].
+  - intros q m Hq. exists m. rewrite Hm. split; [exact Hq | lia].
 Qed.
 
 Lemma dext_of_core_eq s s' :
@@ -56,7 +57,7 @@ Lemma dcore_eq_lru s l : dcore_eq s (set_lru s l).
 Proof. repeat split. Qed.
 
 Definition XP (s0 : db) : panic -> db -> Prop :=
-  fun p s' => allowed s0 p /\ DInv s' /\ dext s0 s'.
+  fun p s' => dallowed s0 p /\ DInv s' /\ dext s0 s'.
 
 Lemma emit_ok e s s0 (Q : unit -> db -> Prop) :
   DInv s -> dext s0 s ->
@@ -73,7 +74,7 @@ Proof.
   - intros Hne.
     assert (Hce : dcore_eq s (set_evfault s None)) by (repeat split).
     split.
-    + right. split; [reflexivity|]. right. intros H0. apply Hne. apply (ext_evfault _ _ He). exact H0.
+    + split; [reflexivity|]. right. intros H0. apply Hne. apply (ext_evfault _ _ He). exact H0.
     + split; [apply (DInv_core_eq prog NF H D s); assumption|].
       eapply dext_trans; [exact He|]. apply dext_of_core_eq'; [exact Hce | reflexivity | reflexivity].
 Qed.
@@ -179,7 +180,7 @@ Definition mca_spec (L : lower) (n : nat) : Prop :=
 
 Lemma XP_trans s0 s1 p s' : dext s0 s1 -> XP s1 p s' -> XP s0 p s'.
 Proof.
-  intros He (Ha & HI & He'). split; [apply (allowed_ext s0 s1); [apply (ext_pcell _ _ He) | apply (ext_evfault _ _ He) | exact Ha]|].
+  intros He (Ha & HI & He'). split; [apply (dallowed_ext s0 s1); [apply (ext_pcell _ _ He) | apply (ext_evfault _ _ He) | exact Ha]|].
   split; [exact HI|].
   eapply dext_trans; eassumption.
 Qed.
@@ -343,12 +344,22 @@ Proof.
   - rewrite in_app_iff. cbn. intuition.
 Qed.
 
+Lemma sle_ext s s' c x : dext s s' -> sle s c x -> sle s' c x.
+Proof.
+  intros He. destruct x as [i | d | c0 |]; cbn; try tauto.
+  - rewrite (ext_in _ _ He). tauto.
+  - intros (md & Hmd & Hle). destruct (ext_mono _ _ He d md Hmd) as (md' & Hmd' & Hc).
+    exists md'. split; [exact Hmd'|]. lia.
+Qed.
+
 Lemma covers_ext s s' pre fr : dext s s' -> covers s pre fr -> covers s' pre fr.
 Proof.
-  intros He [a b c d f g h i]. pose proof (dext_cur _ _ He) as Hc.
+  intros He [a b c d f f1 f2 g h i]. pose proof (dext_cur _ _ He) as Hc.
   constructor; rewrite ?Hc, ?(ext_in _ _ He); auto.
   - intros d0 Hd0. destruct (b d0 Hd0) as (md & Hmd & Hv & Hx & Hrest).
     exists md. split; [apply (ext_valid _ _ He); assumption|]. split; [exact Hv|]. split; assumption.
+  - destruct f2 as [A | (x & Hx & Hs)]; [left; exact A | right].
+    exists x. split; [exact Hx | apply (sle_ext s s'); assumption].
   - intros k Hk Hki Hkq Hku. apply i; try assumption.
     intros d0 Hd0 md Hmd. destruct (b d0 Hd0) as (md0 & Hmd0 & Hv & Hx & _).
     rewrite Hmd in Hmd0. injection Hmd0 as <-.
@@ -360,7 +371,7 @@ Lemma covers_add_in s pre fr i :
   covers s (pre ++ [RIn i])
          (add_read fr (EIn i) (f_dur (d_in s i)) (f_changed (d_in s i))).
 Proof.
-  intros HI [a b c d e f g h].
+  intros HI [a b c d e e1 e2 f g h].
   pose proof (inv_in_le _ _ _ _ _ HI i) as Hle.
   unfold add_read, dur_min, rev_max.
   constructor; cbn [fr_dur fr_changed fr_edges fr_untracked].
@@ -384,6 +395,11 @@ Proof.
     apply In_add_edge in Hd0. destruct Hd0 as [Hd0 | Hd0]; [exact Hd0 | discriminate].
   - lia.
   - lia.
+  - destruct (N.max_spec (fr_changed fr) (f_changed (d_in s i))) as [[Hlt ->] | [Hge ->]].
+    + right. exists (RIn i). split; [apply in_app_iff; right; left; reflexivity | cbn; lia].
+    + destruct e2 as [A | (x & Hx & Hs)]; [left; exact A | right].
+      exists x. split; [apply in_app_iff; left; exact Hx | exact Hs].
+  - lia.
   - intros Hu. rewrite (g Hu). lia.
   - intros k Hk Hki Hkq Hku.
     assert (k <= fr_dur fr).
@@ -400,7 +416,7 @@ Lemma covers_add_q s pre fr d md :
   d_memo s d = Some md -> m_verified md = cur s -> m_val md <> None ->
   covers s (pre ++ [RQ d]) (add_read fr (EQ d) (m_dur md) (m_changed md)).
 Proof.
-  intros HI [a b c dd e f g h] Hmd Hv Hx.
+  intros HI [a b c dd e e1 e2 f g h] Hmd Hv Hx.
   pose proof (inv_memo _ _ _ _ _ HI d md Hmd) as Hok.
   pose proof (mo_order _ _ _ _ _ _ _ Hok) as (_ & Hcv & Hvc).
   unfold add_read, dur_min, rev_max.
@@ -425,6 +441,12 @@ Proof.
     apply In_add_edge in Hd0. destruct Hd0 as [Hd0 | Hd0]; [left; apply dd; exact Hd0 | right; left; congruence].
   - lia.
   - lia.
+  - destruct (N.max_spec (fr_changed fr) (m_changed md)) as [[Hlt ->] | [Hge ->]].
+    + right. exists (RQ d). split; [apply in_app_iff; right; left; reflexivity|].
+      cbn. exists md. split; [exact Hmd | lia].
+    + destruct e2 as [A | (x & Hxx & Hs)]; [left; exact A | right].
+      exists x. split; [apply in_app_iff; left; exact Hxx | exact Hs].
+  - lia.
   - intros Hu. rewrite (g Hu). lia.
   - intros k Hk Hki Hkq Hku.
     assert (k <= fr_dur fr).
@@ -441,7 +463,7 @@ Lemma covers_add_untracked s pre fr x :
   DInv s -> covers s pre fr -> untr x ->
   covers s (pre ++ [x]) (add_untracked fr (cur s)).
 Proof.
-  intros HI [a b c d e f g h] Hx.
+  intros HI [a b c d e e1 e2 f g h] Hx.
   unfold add_untracked, D_LOW.
   constructor; cbn [fr_dur fr_changed fr_edges fr_untracked].
   - intros j Hj. apply in_app_iff in Hj. destruct Hj as [Hj | [Hj | []]].
@@ -455,6 +477,9 @@ Proof.
   - intros y Hy Hk. conj; reflexivity.
   - intros d0 Hd0. apply in_app_iff. left. apply d; exact Hd0.
   - lia.
+  - apply (inv_cur _ _ _ _ _ HI).
+  - right. exists x. split; [apply in_app_iff; right; left; reflexivity|].
+    destruct Hx as [-> | (c0 & ->)]; exact I.
   - lia.
   - intros _; reflexivity.
   - intros k Hk Hki Hkq Hku.
@@ -547,7 +572,7 @@ Proof.
     destruct (d_pcell s pc =? 0) eqn:Hpc.
     + apply (IH pre fr s Hc); try assumption.
       intros d Hd. apply Hcalls. eapply calls_in_panicif; exact Hd.
-    + apply wp_fail. split; [right; split; [reflexivity | left; exists pc; apply N.eqb_neq; exact Hpc]|].
+    + apply wp_fail. split; [split; [reflexivity | left; exists pc; apply N.eqb_neq; exact Hpc]|].
       split; [exact HI | apply dext_refl].
 Qed.
 
@@ -563,7 +588,7 @@ Lemma store_fresh_ok q s0 s2 v fr ch old :
   (forall m0, old = Some m0 -> m_verified m0 = cur s2 -> m_val m0 = None) ->
   (ch = fr_changed fr \/
    exists o ov, old = Some o /\ m_val o = Some ov /\ ov = v /\ ch = m_changed o /\
-                m_dur o <= fr_dur fr) ->
+                m_dur o <= fr_dur fr /\ m_changed o <= fr_changed fr) ->
   let m := fresh_memo v (cur s2) ch fr in
   DInv (store s2 q m) /\ dext s0 (store s2 q m) /\ dtouch_below s0 (store s2 q m) (S (rank q)) /\
   d_memo (store s2 q m) q = Some m.
@@ -612,7 +637,7 @@ Proof.
     assert (Hfin : forall ch,
       (ch = fr_changed fr \/
        exists o ov, old = Some o /\ m_val o = Some ov /\ ov = v /\ ch = m_changed o /\
-                    m_dur o <= fr_dur fr) ->
+                    m_dur o <= fr_dur fr /\ m_changed o <= fr_changed fr) ->
       wp (set_memo_at q (fresh_memo v (cur s2) ch fr) ;;; ret (fresh_memo v (cur s2) ch fr))
          (exec_post s q) (XP s) s2).
     { intros ch Hch. apply wp_bind. unfold set_memo_at. apply wp_modify. apply wp_ret.
@@ -629,12 +654,15 @@ Proof.
         -- apply andb_true_iff in Hbk. destruct Hbk as [Hbk _]. apply can_backdate_dur_spec in Hbk.
            destruct (d_pcell s2 EQ_FAULT =? 0) eqn:Hqf; cbn [negb].
            ++ destruct (ov =? v) eqn:Hbd.
-              ** destruct (changed_after (m_changed o) (fr_changed fr)).
-                 --- apply wp_fail. split; [left; reflexivity|]. split; [exact HI2 | exact He02].
-                 --- apply Hfin. right. exists o, ov. conj; auto. apply N.eqb_eq in Hbd. exact Hbd.
+              ** destruct (changed_after (m_changed o) (fr_changed fr)) eqn:Hca.
+                 --- (* the backdate-violation assertion is unreachable *)
+                     exfalso. apply changed_after_spec in Hca.
+                     pose proof (frame_changed_lb prog NF H D s2 q fr o HI2 Hcv' Hold2). lia.
+                 --- apply changed_after_false in Hca.
+                     apply Hfin. right. exists o, ov. conj; auto. apply N.eqb_eq in Hbd. exact Hbd.
               ** apply Hfin. left; reflexivity.
            ++ apply wp_fail. split; [|split; [exact HI2 | exact He02]].
-              right. split; [reflexivity|]. left. exists EQ_FAULT.
+              split; [reflexivity|]. left. exists EQ_FAULT.
               rewrite <- (ext_pcell _ _ He02). apply N.eqb_neq. exact Hqf.
         -- apply Hfin. left; reflexivity.
       * apply Hfin. left; reflexivity.
